@@ -108,8 +108,9 @@ def stepModel (st : St) (ws : List String) (obs : Json) : List (String Ã— CaM) Ã
     let (runs, _) := republishRuns ws st.prev
     let n := ((caCmds obs).filter (Â·.1 == h)).length
     let positions : List Nat := if runs > 0 then (List.range (n + 1)).reverse else [n]
+    -- (the code compares sub-second instants: one second of slack on either side)
     let cands : List (Nat Ã— Nat) :=
-      (positions.map fun k => (now, k)) ++ (if t0 != now then positions.map fun k => (t0, k) else [])
+      (positions.map fun k => (now + 1, k)) ++ (positions.map fun k => (t0 - 1, k))
     let results := cands.map fun (clock, first) =>
       let (m, a) := stepCa st.cfg ws st.prev obs clock first h (getCa st h)
       let a := if gone then a else
@@ -244,8 +245,9 @@ def stepOracle (st : St) (ws : List String) (obs : Json) : St Ã— List String :=
           q.number == p.number && q.mftHash == p.mftHash && q.crlHash == p.crlHash && pubSig q == pubSig p
         let keeps := (c.sets.zip pc.sets).all fun (q, p) => pubSig q == pubSig p
         (if keeps then [] else ["ReissueKeepsPayloads"]) ++
-        (if force || (due t0 && due now) then (if bumped then [] else ["DueIsReissued", "NumberPlusOne"])
-         else if !(due t0) && !(due now) then (if same then [] else ["NothingDueNothingChanges"])
+        -- `due` is monotone in the clock; the code compares sub-second instants: a second of slack
+        (if force || due (t0 - 1) then (if bumped then [] else ["DueIsReissued", "NumberPlusOne"])
+         else if !(due (now + 1)) then (if same then [] else ["NothingDueNothingChanges"])
          else [])
   -- (`task renew` drains every due task: judged only when nothing but renewals was stored)
   let onlyRenewals := (caCmds obs).all fun (_, c) => jstr (jpath c ["details", "type"]) == "reissue_before_expiring"
